@@ -185,6 +185,107 @@ def gen_e2e(rng, tier):
         yield a
 
 
+# ------------------------------------------------------------------ named model groups and xs:all (Gen/Groups.lean)
+HAND_GROUPS = [
+    # the seeded-regression shape: one group, referenced plainly and with 0..unbounded, stricter reference first
+    {"defs": [["g0", {"seq": [1, 1, [{"elem": ["a", 1, 1]}, {"elem": ["b", 0, 1]}]]}]],
+     "types": [{"ref": ["g0", 1, 1]}, {"ref": ["g0", 0, MAXSIZE]}]},
+    {"defs": [["g0", {"seq": [1, 1, [{"elem": ["a", 1, 1]}, {"elem": ["b", 0, 1]}]]}]],
+     "types": [{"ref": ["g0", 0, MAXSIZE]}, {"seq": [1, 1, [{"elem": ["x", 1, 1]}, {"ref": ["g0", 1, 1]}]]}]},
+    # a reference inside a choice, a nested reference, a group defined after its use
+    {"defs": [["g0", {"seq": [1, 1, [{"elem": ["a", 1, 1]}, {"ref": ["g1", 0, 1]}]]}], ["g1", {"choice": [1, 1, [{"elem": ["b", 1, 1]}, {"elem": ["c", 1, 3]}]]}]],
+     "types": [{"ref": ["g0", 1, MAXSIZE]}, {"choice": [1, 1, [{"elem": ["x", 1, 1]}, {"ref": ["g0", 1, 1]}]]}, {"seq": [1, 1, [{"ref": ["g1", 2, 2]}]]}]},
+    # xs:all, directly and through a group
+    {"defs": [["g0", {"all": [1, 1, [{"elem": ["a", 1, 1]}, {"elem": ["b", 0, 1]}]]}]],
+     "types": [{"all": [0, 1, [{"elem": ["p", 1, 1]}, {"elem": ["q", 0, 1]}]]}, {"ref": ["g0", 1, 1]}, {"ref": ["g0", 0, 1]}]},
+    # the same group twice in one type: two clones of one declaration
+    {"defs": [["g0", {"choice": [1, 1, [{"elem": ["a", 1, 1]}, {"elem": ["b", 1, 1]}]]}]],
+     "types": [{"seq": [1, 1, [{"ref": ["g0", 1, 1]}, {"ref": ["g0", 1, 1]}]]}, {"ref": ["g0", 1, 1]}]},
+]
+
+
+def gschemas(rng, n):
+    for sch in HAND_GROUPS:
+        yield sch
+    for _ in range(n):
+        yield G.gen_gschema(rng, dup=rng.random() < 0.25)
+
+
+def gen_gsites(rng, tier):
+    for sch in gschemas(rng, n_cases(tier, 300, 12000)):
+        yield sch
+
+
+def impl_gsites(a, upto="ungroup"):
+    try:
+        return ok(G.real_schema_classes(G.gschema_xsd(a, defs_last=bool(a.get("defs_last"))), upto=upto))
+    except AssertionError:
+        return err("LEAK:AssertionError")
+    except Exception as e:  # noqa: BLE001
+        return err("GEN:" + type(e).__name__)
+
+
+def canon_gsites(o):
+    if isinstance(o, dict) and "ok" in o:
+        return {"ok": G.renumber_classes(o["ok"])}
+    return o
+
+
+def gen_gcalc(rng, tier):
+    """the classes of a schema after the real UNGROUP step, as the input of one CalculateAttributePaths handler"""
+    for sch in gschemas(rng, n_cases(tier, 300, 12000)):
+        try:
+            yield {"classes": G.renumber_classes(G.real_schema_classes(G.gschema_xsd(sch)))}
+        except Exception:  # noqa: BLE001
+            continue
+
+
+def impl_gcalc(a):
+    try:
+        return ok(G.real_calc_classes(a["classes"]))
+    except Exception as e:  # noqa: BLE001
+        return err("LEAK:" + type(e).__name__)
+
+
+def gschema_valid(sch, types=None):
+    from lxml import etree
+
+    try:
+        etree.XMLSchema(etree.fromstring(G.gschema_xsd(sch, types=types).encode()))
+        return True
+    except etree.XMLSchemaParseError:
+        return False
+
+
+def gen_gfields(rng, tier):
+    n = 0
+    for sch in HAND_GROUPS:
+        if gschema_valid(sch):
+            yield sch
+    while n < n_cases(tier, 60, 2500):
+        sch = G.gen_gschema(rng, valid=True, dup=rng.random() < 0.15)
+        n += 1
+        if gschema_valid(sch):
+            yield sch
+
+
+def impl_gfields(a):
+    g = CG.run_pipeline({"s.xsd": G.gschema_xsd(a)})
+    try:
+        if g.error is not None:
+            return err("GEN:" + type(g.error).__name__)
+        classes = g.classes()
+        return ok([field_shapes(classes[f"R{i}"]) for i in range(len(a["types"]))])
+    finally:
+        g.close()
+
+
+def canon_gfields(o):
+    if isinstance(o, dict) and "ok" in o and all(isinstance(c, list) for c in o["ok"]):
+        return {"ok": [{s["name"]: [s["max"] > 1, s["min"] >= 1 and s["max"] <= 1] for s in c} for c in o["ok"]]}
+    return o
+
+
 CORRS = [
     Corr("gen.xsd_sites", gen_sites, impl_sites, canon=canon_sites, describe="SchemaParser+SchemaMapper element sites and paths vs model"),
     Corr("gen.calc_paths", stage_gen("calc"), stage_impl("calc"), describe="CalculateAttributePaths.process vs model"),
@@ -193,6 +294,15 @@ CORRS = [
     Corr("gen.occurs", gen_occurs, stage_impl("all"), describe="the three handlers in container order vs model"),
     Corr("gen.xsd_occurs", gen_fields, impl_fields, canon=canon_fields,
          describe="whole real pipeline + stand-in renderer: list-ness / requiredness of generated fields vs model"),
+    Corr("gen.grp_sites", gen_gsites, impl_gsites, canon=canon_gsites,
+         nontrivial=lambda a, o: "ref" in json.dumps(a["types"]) or "all" in json.dumps(a),
+         describe="named groups / xs:all: SchemaParser + SchemaMapper + ClassContainer UNGROUP step (FlattenAttributeGroups, copy_group_attributes) -> attrs and paths of every class vs model"),
+    Corr("gen.grp_calc", gen_gcalc, impl_gcalc, canon=canon_gsites,
+         describe="one CalculateAttributePaths handler over all the classes of a schema (paths with shared group ids) vs model"),
+    Corr("gen.grp_occurs", gen_gsites, lambda a: impl_gsites(a, upto="flatten"), canon=canon_gsites,
+         describe="named groups / xs:all: real container through the FLATTEN step vs model (UNGROUP + the three handlers)"),
+    Corr("gen.grp_fields", gen_gfields, impl_gfields, canon=canon_gfields,
+         describe="named groups / xs:all: whole real pipeline + stand-in renderer: list-ness / requiredness of the fields of every class vs model"),
     Corr("c02.e2e", gen_e2e, impl_e2e, spec=spec_e2e,
          describe="spec-level: schema (typed elements, unions) -> real pipeline under default / compound-field / output-only options -> strict parse of valid documents -> re-serialise; expected: faithful"),
 ]
